@@ -1510,7 +1510,10 @@ static void gen_stmt(Node *node) {
       switch (ty->kind) {
       case TY_STRUCT:
       case TY_UNION:
-        if (!pass_in_memory(ty))
+        // The function's type says how the value travels. The object
+        // returned may be larger: it may have a flexible array member
+        // with an initializer.
+        if (!pass_in_memory(current_fn->ty->return_ty))
           copy_struct_reg();
         else
           copy_struct_mem();
